@@ -328,3 +328,89 @@ func init() {
 		return append(b16(), planItem{register(worldScenario("C16", specEventsFault, eventOracle)), 2, 3})
 	}
 }
+
+// wave-3 additions: the account a script spends from is designated indirectly
+func aliasScript(amount int, src, dst string) string {
+	return fmt.Sprintf("vars {\n  account $x\n}\nset_tx_meta(\"who\", $x)\nsend [X %d] (\n  source = %s\n  destination = %s\n)\n", amount, src, dst)
+}
+
+func twoVarScript(amount int, dst string) string {
+	return fmt.Sprintf("vars {\n  account $x\n  account $s\n}\nset_account_meta($x, \"seen\", \"y\")\nsend [X %d] (\n  source = $s\n  destination = %s\n)\n", amount, dst)
+}
+
+var (
+	// the source is also named by a variable that is not itself a source
+	specSpend2Alias = worldSpec{Name: "spend2-alias", Seed: seedA100,
+		Gen1: []reqSpec{{Name: "s1", Kind: "create", Script: aliasScript(60, "@a", "@b"), Vars: map[string]string{"x": "a"}}, {Name: "s2", Kind: "create", Script: aliasScript(60, "@a", "@c"), Vars: map[string]string{"x": "a"}}}}
+	specSpend2TwoVars = worldSpec{Name: "spend2-two-vars", Seed: seedA100,
+		Gen1: []reqSpec{{Name: "s1", Kind: "create", Script: twoVarScript(60, "@b"), Vars: map[string]string{"x": "a", "s": "a"}}, {Name: "s2", Kind: "create", Script: twoVarScript(60, "@c"), Vars: map[string]string{"x": "a", "s": "a"}}}}
+	// the metadata that designates the source is rewritten while the spender waits; a third request spends the new target
+	specSpendMetaRepoint = worldSpec{Name: "spend-meta-repoint",
+		Seed: func(st *memstore.Store) {
+			seedTxs(ledger.Postings{post("world", "a", 100)}, ledger.Postings{post("world", "b", 100)})(st)
+			st.Seed(ledger.NewSetMetadataOnAccountLog(ledger.Now(), "cfg", metadata.Metadata{"src": "a"}))
+		},
+		Gen1: []reqSpec{{Name: "s1", Kind: "create", Script: metaSrcScript(100, "@c")},
+			{Name: "m1", Kind: "savemeta", TargetType: ledger.MetaTargetTypeAccount, TargetID: "cfg", Meta: metadata.Metadata{"src": "b"}},
+			create("s2", 100, "@b", "@d")}}
+)
+
+func init() {
+	b02 := plans["C02"]
+	plans["C02"] = func() []planItem {
+		return append(b02(),
+			planItem{register(worldScenario("C02", specSpend2Alias, spendOracle)), 3, 4},
+			planItem{register(worldScenario("C02", specSpend2TwoVars, spendOracle)), 3, 4},
+			planItem{register(worldScenario("C02", specSpendMetaRepoint, spendOracle)), 3, 4})
+	}
+}
+
+func init() {
+	b06 := plans["C06"]
+	plans["C06"] = func() []planItem {
+		// a retried request (same idempotency key) while any store read may fail: still exactly one entry per request
+		return append(b06(),
+			planItem{register(worldScenario("C06", withReadFaults(specIK2), ackOracle)), 2, 3},
+			planItem{register(worldScenario("C06", withReadFaults(specIKMeta), ackOracle)), 2, 3})
+	}
+}
+
+// a preview carrying an idempotency key, then the real write with that key (and its retry after a restart)
+var specIKPreview = worldSpec{Name: "ik-preview-then-write", Crash: true, Seed: seedA100,
+	Gen1: []reqSpec{{Name: "p1", Kind: "create", Script: sendScript(5, "@world", "@b"), IK: "k", DryRun: true}, {Name: "c1", Kind: "create", Script: sendScript(5, "@world", "@b"), IK: "k"}},
+	Gen2: []reqSpec{{Name: "c1", Kind: "create", Script: sendScript(5, "@world", "@b"), IK: "k"}}}
+
+var specIKPreviewRevert = worldSpec{Name: "ik-preview-then-revert", Seed: seedA100,
+	Gen1: []reqSpec{{Name: "p0", Kind: "revert", TxID: 0, IK: "k", DryRun: true}, {Name: "r0", Kind: "revert", TxID: 0, IK: "k"}, {Name: "r0", Kind: "revert", TxID: 0, IK: "k"}}}
+
+func init() {
+	b07, b16 := plans["C07"], plans["C16"]
+	plans["C07"] = func() []planItem {
+		return append(b07(),
+			planItem{register(worldScenario("C07", specIKPreview, ikOracle)), 3, 4},
+			planItem{register(worldScenario("C07", specIKPreviewRevert, ikOracle)), 2, 3})
+	}
+	plans["C16"] = func() []planItem {
+		return append(b16(), planItem{register(worldScenario("C16", specIKPreview, eventOracle)), 2, 3})
+	}
+}
+
+// references that differ from an ordinary identifier: surrounding white space, letter case
+var (
+	specRefPaddedSame = worldSpec{Name: "ref-padded-same",
+		Gen1: []reqSpec{{Name: "c1", Kind: "create", Script: sendScript(5, "@world", "@b"), Ref: "r "}, {Name: "c2", Kind: "create", Script: sendScript(5, "@world", "@c"), Ref: "r "}}}
+	specRefVariants = worldSpec{Name: "ref-variants",
+		Gen1: []reqSpec{{Name: "c1", Kind: "create", Script: sendScript(5, "@world", "@b"), Ref: "r"}, {Name: "c2", Kind: "create", Script: sendScript(5, "@world", "@c"), Ref: " r"}, {Name: "c3", Kind: "create", Script: sendScript(5, "@world", "@d"), Ref: "R"}}}
+	specRefPostingsPadded = worldSpec{Name: "ref-postings-padded",
+		Gen1: []reqSpec{{Name: "c1", Kind: "create", Postings: ledger.Postings{post("world", "b", 5)}, Ref: "r\n"}, {Name: "c2", Kind: "create", Postings: ledger.Postings{post("world", "c", 5)}, Ref: "r\n"}}}
+)
+
+func init() {
+	b11 := plans["C11"]
+	plans["C11"] = func() []planItem {
+		return append(b11(),
+			planItem{register(worldScenario("C11", specRefPaddedSame, refOracle)), 3, 4},
+			planItem{register(worldScenario("C11", specRefVariants, refOracle)), 2, 3},
+			planItem{register(worldScenario("C11", specRefPostingsPadded, refOracle)), 2, 3})
+	}
+}
